@@ -200,6 +200,11 @@ func (d *dhcpRun) history() {
 	m := mon.NewDHCPMon(mon.DHCPCfg{Home: nic.HomeLAN, Netfilter: d.net.netfilter.Masked(), HostIP: nic.HostIP, RouterIP: nic.RouterIP, DNS: dns,
 		FamilyDNS: netip.MustParseAddr("1.1.1.3"), Lease: 4 * time.Hour}, time.Now)
 	cls := []*dclient{{mac: dhcpClients[0]}, {mac: dhcpClients[1], useID: true}, {mac: dhcpClients[2], useID: d.idx%2 == 0}}
+	if d.idx%5 == 2 {
+		// a client that sends a client identifier option of length zero (shorter than RFC 2132 allows, seen from embedded
+		// stacks): whatever the server keys it by, it is one client and its lease is a lease like any other
+		cls[2].id = []byte{}
+	}
 	if d.idx%3 == 0 {
 		// a second DHCP client behind the same network card as client 1 (a virtual machine or container bridged without its
 		// own MAC, a boot loader and the installed system): same chaddr, another client identifier - a different client
